@@ -10,7 +10,7 @@ from .. import astutil as A
 from ..fa import FA
 from ..loader import AnalysisError
 from .cache_model import (CacheModel, self_attr, assign_pairs, CACHE_CLASS, branch_filter, both, no_back_edges, every_path_through,
-                          at_most_once, bool_leaves, edge_implies, linear_terms, safe_expand, value_sources)
+                          at_most_once, bool_leaves, edge_implies, linear_terms, safe_expand, value_sources, slot_calls)
 
 
 def _block_of(fa: FA, st):
@@ -66,10 +66,21 @@ def _entry_size_read(fa: FA, cm, v, at_stmt, kx):
     """Is `v` (evaluated in `at_stmt`) the recorded size of the resident entry of key `kx` -- `<e>.obj_size`
     with <e> being `self.map[k]` / `self.map.get(k)` directly or through locals?  -> CFG nodes at which the
     entry is read out of the map (None when `v` is something else)."""
-    if not (isinstance(v, ast.Attribute) and v.attr == "obj_size"):
-        return None
     nodes = fa.nodes(at_stmt)
     if not nodes:
+        return None
+    hops = 0
+    while isinstance(v, ast.Name) and hops < 4:
+        # `size = self.map[k].obj_size` ... `counter -= size`
+        ds = []
+        for i in nodes:
+            ds += fa.df.reaching(i, v.id)
+        ds = list({d.node: d for d in ds}.values())
+        if len(ds) != 1 or ds[0].kind != "assign" or ds[0].value is None:
+            return None
+        v, nodes = ds[0].value, [ds[0].node]
+        hops += 1
+    if not (isinstance(v, ast.Attribute) and v.attr == "obj_size"):
         return None
     base = v.value
     read_nodes = list(nodes)
@@ -261,7 +272,7 @@ def check_accounting(ck, cm: CacheModel):
                               fa.where(st))
                     elif self_attr(t, cm.counter) and name != "__init__":
                         # plain assignment to the counter: only `= 0` together with map.clear()
-                        clears = [c for c in fa.calls("clear") if self_attr(A.call_recv(c), cm.map)]
+                        clears = slot_calls(fa, cm.map, ("clear",))
                         ok = isinstance(st.value, ast.Constant) and st.value.value == 0 and bool(clears)
                         ck.ob(R, fa.key(st, "counter-assign"), ok,
                               "counter reset together with map.clear()" if ok else
@@ -284,12 +295,12 @@ def check_accounting(ck, cm: CacheModel):
                       "counter adjustment sits beside a map mutation" if paired else
                       "counter adjusted without a map mutation in the same block", fa.where(st))
         # ---- clear
-        for c in fa.calls("clear"):
-            if self_attr(A.call_recv(c), cm.map):
+        for c in slot_calls(fa, cm.map, ("clear",)):
+            if True:
                 st = fa.stmt_of(c)
                 zero = [s for s in fa.stmts(ast.Assign) if any(self_attr(t, cm.counter) for t in s.targets)
                         and isinstance(s.value, ast.Constant) and s.value.value == 0]
-                qclear = [x for x in fa.calls("clear") if self_attr(A.call_recv(x), cm.queue)]
+                qclear = slot_calls(fa, cm.queue, ("clear",))
                 ck.ob(R, fa.key(st, "clear-counter"), bool(zero),
                       "map.clear() paired with counter = 0" if zero else "map.clear() without resetting the counter", fa.where(st))
                 ck.ob(R, fa.key(st, "clear-queue"), bool(qclear),
@@ -486,6 +497,31 @@ class BudgetTests:
                     False: "empty" if false_set == {0} else ("nonempty" if false_set and 0 not in false_set else None)}
         return None
 
+    def _flag_facts(self, leaf, nid, kind, _depth=0):
+        """A boolean local used as (part of) a test -- `fits = size <= budget` ... `if not fits:` -- says what the comparison
+        it was assigned says, provided what that comparison read is still current where the flag is tested.
+        -> function(value) -> bool, or None when the leaf is not such a flag."""
+        if not isinstance(leaf, ast.Name) or _depth > 3:
+            return None
+        v, dn = self._through_local(leaf, nid)
+        if dn is None or not isinstance(v, (ast.Compare, ast.BoolOp, ast.UnaryOp)):
+            return None
+        if kind == "room" and not self._fresh(dn, nid):
+            return None
+        inner = {}
+        for lf in bool_leaves(v):
+            bf = self.budget_fact(lf, dn)
+            ef = self.empty_fact(lf, dn) if kind == "room" else None
+            sub = self._flag_facts(lf, dn, kind, _depth + 1) if bf is None and ef is None else None
+            inner[id(lf)] = (bf, ef, sub)
+
+        def inner_fact(lf, value):
+            bf, ef, sub = inner[id(lf)]
+            return bool((bf is not None and bf[0] == kind and bf[1][value] == "fits") or (ef is not None and ef[value] == "empty")
+                        or (sub is not None and sub(value)))
+
+        return lambda value: edge_implies(v, value, inner_fact)
+
     # -- edges ------------------------------------------------------------------------------------------
     def establishing(self, kind):
         """Branch edges (test node id, 'T' | 'F') whose taking implies: kind 'oversize' -> size <= budget;
@@ -500,8 +536,9 @@ class BudgetTests:
             for lf in bool_leaves(n.ast):
                 bf = self.budget_fact(lf, n.id)
                 ef = self.empty_fact(lf, n.id) if kind == "room" else None
-                facts[id(lf)] = (bf, ef)
-                if bf is None and ef is None and kind == "room" and isinstance(self.fa.pm.get(n.ast), ast.While):
+                sub = self._flag_facts(lf, n.id, kind) if bf is None and ef is None else None
+                facts[id(lf)] = (bf, ef, sub)
+                if bf is None and ef is None and sub is None and kind == "room" and isinstance(self.fa.pm.get(n.ast), ast.While):
                     try:
                         d = self.fa.df.deps(lf, n.id)
                     except Exception:
@@ -510,10 +547,12 @@ class BudgetTests:
                         self.unclassified.append((lf, n.id))
 
             def fact_of(lf, value, facts=facts):
-                bf, ef = facts[id(lf)]
+                bf, ef, sub = facts[id(lf)]
                 if bf is not None and bf[0] == kind and bf[1][value] == "fits":
                     return True
                 if ef is not None and ef[value] == "empty":
+                    return True
+                if sub is not None and sub(value):
                     return True
                 return False
 
@@ -642,32 +681,97 @@ def _loop_exits(fa, wst):
     return out
 
 
+def _has_sub(e) -> bool:
+    return any((isinstance(x, ast.BinOp) and isinstance(x.op, ast.Sub)) or (isinstance(x, ast.UnaryOp) and isinstance(x.op, ast.USub)) for x in ast.walk(e))
+
+
+def _bounds_below(text, pol, xs) -> bool:
+    """does the branch literal (text, polarity) say `X >= M` / `X > M` for a subtraction-free M, X being one of the texts `xs`?"""
+    try:
+        e = ast.parse(text, mode="eval").body
+    except SyntaxError:
+        return False
+    if not (isinstance(e, ast.Compare) and len(e.ops) == 1):
+        return False
+    op = type(e.ops[0])
+    l, r = e.left, e.comparators[0]
+    mirror = {ast.Gt: ast.Lt, ast.Lt: ast.Gt, ast.GtE: ast.LtE, ast.LtE: ast.GtE}
+    negate = {ast.Gt: ast.LtE, ast.LtE: ast.Gt, ast.Lt: ast.GtE, ast.GtE: ast.Lt}
+    if op not in mirror:
+        return False
+    if A.norm(l) in xs:
+        other = r
+    elif A.norm(r) in xs:
+        other, op = l, mirror[op]
+    else:
+        return False
+    if not pol:
+        op = negate[op]
+    return op in (ast.Gt, ast.GtE) and not _has_sub(other)
+
+
 def check_estimates_bounded_below(ck, cm, R):
     """The accounts are only honest if a recorded size cannot be negative: an estimator that
     extrapolates (a difference of two measurements scaled up) must bound its result below by something
-    that was measured.  Every return of a size estimator of the cache whose value involves a subtraction
-    is a `max(<extrapolation>, <measured size>)`."""
+    that was measured.  Every value a size estimator of the cache returns that involves a subtraction is
+    either `max(<extrapolation>, <measured size>)` or is returned only on paths that have compared it with a
+    measured size and found it at least as large (`x if x > m else m`, `if x < m: return m` ... `return x`)."""
     n = 0
     for name, m in cm.cls.methods.items():
         if "mem_usage" not in name and "estimate" not in name and "size" not in name:
             continue
         fa = FA(ck, m)
         for r in fa.returns():
-            if r.value is None:
+            if r.value is None or not fa.nodes(r):
                 continue
-            e = safe_expand(fa, r.value, r)
-            subs = [x for x in ast.walk(e) if isinstance(x, ast.BinOp) and isinstance(x.op, ast.Sub)] + \
-                   [x for x in ast.walk(e) if isinstance(x, ast.UnaryOp) and isinstance(x.op, ast.USub)]
-            if not subs:
+            bad = None
+            seen = False
+            conds = None
+            for (v_, at_) in value_sources(fa, r):
+                # a conditional expression hands out one of two values, each under its own condition
+                alts = [(v_, [[]])]
+                k = 0
+                while k < len(alts) and len(alts) < 16:
+                    (x, cs) = alts[k]
+                    if isinstance(x, ast.IfExp):
+                        try:
+                            t_alts, f_alts = fa._alts(x.test, at_, True), fa._alts(x.test, at_, False)
+                        except AnalysisError:
+                            t_alts, f_alts = [[]], [[]]
+                        alts[k:k + 1] = [(x.body, [c + t for c in cs for t in t_alts]), (x.orelse, [c + f for c in cs for f in f_alts])]
+                    else:
+                        k += 1
+                for (x, cs) in alts:
+                    try:
+                        e = fa.expand(x, at_)
+                    except AnalysisError:
+                        e = x
+                    if not _has_sub(e):
+                        continue
+                    seen = True
+                    if isinstance(e, ast.Call) and isinstance(e.func, ast.Name) and e.func.id == "max" and len(e.args) >= 2 \
+                            and any(not _has_sub(a) for a in e.args):
+                        continue
+                    xs = {A.norm(e), A.norm(x)}
+                    try:
+                        xs.add(fa.xnorm(x, at_))
+                    except AnalysisError:
+                        pass
+                    if conds is None:
+                        conds = fa.conditions(r) or set()
+                    # every way of handing this value out has found it at least as large as a measured one
+                    ways = [list(pc) + c for pc in (conds or [frozenset()]) for c in cs]
+                    if ways and all(any(_bounds_below(t_, p_, xs) for (t_, p_) in w) for w in ways):
+                        continue
+                    bad = bad or x
+            if not seen:
                 continue
             n += 1
-            top = e
-            ok = isinstance(top, ast.Call) and isinstance(top.func, ast.Name) and top.func.id == "max" and len(top.args) >= 2 and \
-                any(not any(isinstance(y, ast.BinOp) and isinstance(y.op, ast.Sub) for y in ast.walk(a)) for a in top.args)
+            ok = bad is None
             ck.ob(R, fa.key(r, "estimate-bounded-below"), ok,
                   "the extrapolated size is bounded below by a measured one" if ok else
                   "`%s` extrapolates from a difference of two sample measurements and can come out negative (heavy rows in the small sample): the entry "
-                  "is then resident with a negative size, memory_usage goes down on insertion and the budget is exceeded" % A.short(r.value, 60), fa.where(r))
+                  "is then resident with a negative size, memory_usage goes down on insertion and the budget is exceeded" % A.short(bad, 60), fa.where(r))
     ck.ob(R, CACHE_CLASS + "::estimate-bounded-below::scan", True, "%d extrapolating size estimates" % n, "")
 
 
@@ -676,7 +780,10 @@ def check_queue_unbounded(ck, cm, R):
     for st in ini.stmts((ast.Assign, ast.AnnAssign)):
         qv = [v for (t, v) in assign_pairs(st) if self_attr(t, cm.queue) and isinstance(v, ast.Call)]
         if qv:
-            ok = not qv[0].args and not qv[0].keywords
+            # only a bound makes the queue drop keys: deque(), deque([]), deque(maxlen=None) are all unbounded
+            bound = A.arg_or_kw(qv[0], 1, "maxlen")
+            ok = (bound is None or A.is_none(bound)) and not any(k.arg is None for k in qv[0].keywords) \
+                and not any(isinstance(a, ast.Starred) for a in qv[0].args)
             ck.ob(R, ini.key(None, "queue-unbounded"), ok, "the recency queue never drops keys on its own" if ok else
                   "the recency queue is constructed as `%s`: once full it silently drops the oldest key while its entry stays resident, so that entry "
                   "can never be evicted and the budget is exceeded" % A.norm(qv[0]), ini.where(st))
@@ -959,6 +1066,31 @@ def check_replace_on_put(ck, cm: CacheModel, rule="C06.R4"):
               "(path %s): a later read is served the stale value" % fa.cfg.describe_path(p), fa.where(at))
 
 
+def _evicts_every_resident_key(fa: FA, cm) -> bool:
+    """forget_everything written as a loop: on every path it runs a loop that hands every key of the resident map (or of
+    the recency queue, a superset) to the evict role, with no condition deciding which keys are evicted."""
+    evs = [c for c in fa.calls() if cm.is_self_call(c, cm.evict) and c.args]
+    if not evs:
+        return False
+    sc = ForgetScope(fa, cm)
+    loops = []
+    for c in evs:
+        loop = fa.enclosing(c, (ast.For,))
+        if loop is None or _comprehension_env(fa, c.args[0]):
+            return False
+        loops.append(loop)
+        for i in fa.nodes(c):
+            sc.trace(c.args[0], i, {})
+            # conditions inside the loop (those outside it are covered by the must-pass query below)
+            for conj in (fa.conditions(i) or []):
+                for (t_, p_) in conj:
+                    sc.filters.append((t_, i, set()))
+    if sc.other or sc.filters or not (set(sc.fields) & {cm.map, cm.queue}) or set(sc.fields) - {cm.map, cm.queue}:
+        return False
+    heads = fa.nodes_all(loops)
+    return bool(heads) and fa.cfg.must_pass(heads, fa.cfg.exit)
+
+
 def check_forget(ck, cm: CacheModel, rule="C06.R5"):
     ck.rule(rule, "forget operations of the cache evict through the evict role (so accounts are updated) and drop weak refs", 3)
     for name in ("forget_call", "forget_function", "forget_everything"):
@@ -966,10 +1098,18 @@ def check_forget(ck, cm: CacheModel, rule="C06.R5"):
         ck.need(m is not None, "MemoryCache.%s not found" % name)
         fa = FA(ck, m)
         if name == "forget_everything":
-            ok = bool([c for c in fa.calls("clear") if self_attr(A.call_recv(c), cm.map)]) and \
-                fa.cfg.must_pass(fa.nodes_all([c for c in fa.calls("clear") if self_attr(A.call_recv(c), cm.map)]), fa.cfg.exit)
+            clears = slot_calls(fa, cm.map, ("clear",))
+            ev = fa.nodes_all(clears)
+            for c in clears:
+                # a loop over a literal, non-empty tuple of slots runs its body at least once
+                loop = fa.enclosing(c, (ast.For,))
+                if loop is not None and isinstance(loop.iter, (ast.Tuple, ast.List)) and loop.iter.elts and fa.stmt_of(c) in loop.body:
+                    ev += fa.nodes(loop)
+            ok = bool(clears) and fa.cfg.must_pass(ev, fa.cfg.exit)
+            if not clears:
+                ok = _evicts_every_resident_key(fa, cm)
             if cm.refs:
-                ok = ok and bool([c for c in fa.calls("clear") if self_attr(A.call_recv(c), cm.refs)])
+                ok = ok and bool(slot_calls(fa, cm.refs, ("clear",)))
             ck.ob(rule, fa.key(None, "clears"), ok, "forget_everything clears map and weak refs on every path" if ok else
                   "forget_everything does not clear the resident map / weak refs on every path", fa.where())
         else:
